@@ -11,5 +11,11 @@ CONSTANTS
   CfiLayouts = {"none"}
   Isa = "x64"
   Emit = FALSE
-INVARIANT InvB
+INVARIANT Inv_Completes
+INVARIANT Inv_Bytes
+INVARIANT Inv_Syms
+INVARIANT Inv_Fn
+INVARIANT Inv_NoDeadEdges
+INVARIANT Inv_PreCfg
+INVARIANT Inv_Cfg
 CHECK_DEADLOCK FALSE
